@@ -93,7 +93,11 @@ def _span_limit(ctx, rep, eng):
             if worst is None or rank[v] > rank[worst[0]]:
                 worst = (v, det, wit, shape)
     c = "ctparse/time/postprocess_latent.py::latent clock range <= 24h"
-    if worst is None:
+    raising = any(p.kind == "raise" for key, (shape, paths, err) in eng.latent.items() for p in paths)
+    if worst is None and raising:
+        rep.ok("range-order", c, "ctparse/time/postprocess_latent.py",
+               "no returning latent path builds a clock range (raising paths are C01's)", nontrivial=False)
+    elif worst is None:
         rep.undecided("range-order", c, "ctparse/time/postprocess_latent.py",
                       "no latent path anchors a clock range")
     elif worst[0] == "ok":
